@@ -85,8 +85,9 @@ PROPS = {
         tie_filter=r'task|promiseInsert|promiseUpdate|callback|shape|wiring|uniques',
         harness=[sysdiff('sysdiff-dispatch', ['CreatePromise', 'CreatePromise', 'CreatePromiseAndTask', 'CompletePromise', 'ClaimTask', 'CompleteTask', 'CreateCallback', 'CreateSubscription', 'HeartbeatTasks'],
                          (30, 150), (800, 200), 'C08,C07,C05', ['-routed', '70', '-fail', '20', '-crash', '1', '-smallcfg', '-known', 'F5'], (250, 200)),
-                 storediff('storediff-tasks', TASK_KINDS + ['CreatePromise', 'UpdatePromise', 'CreateCallback', 'DeleteCallbacks'], (20, 30), (500, 40))],
-        rule=SYS_RULE + '; mixes of routed / unrouted promises (routing tags: logical names, URLs, JSON receivers, non-receiver JSON), callbacks and subscriptions; every hand-off outcome (success / refused / error), router failures, store failures, task batch sizes 1..100; monitors: a routed promise is created with its invocation task, a completed promise leaves none of its previous tasks live, C07 task monotonicity, C05',
+                 storediff('storediff-tasks', TASK_KINDS + ['CreatePromise', 'UpdatePromise', 'CreateCallback', 'DeleteCallbacks'], (20, 30), (500, 40)),
+                 dict(bin='routesend', name='routesend', quick=['-cases', '1500'], thorough=['-cases', '20000'], search=['-cases', '6000'])],
+        rule='routesend: the REAL router decides which promises are routed (a promise whose tag names a receiver is born with its invocation task only if the router matches it): every tag shape against the model and against two direct clauses (plain strings are logical names, receiver objects are physical receivers); ' + SYS_RULE + '; mixes of routed / unrouted promises (routing tags: logical names, URLs, JSON receivers, non-receiver JSON), callbacks and subscriptions; every hand-off outcome (success / refused / error), router failures, store failures, task batch sizes 1..100; monitors: a routed promise is created with its invocation task, a completed promise leaves none of its previous tasks live, C07 task monotonicity, C05',
         assumptions=['router outcome is taken from the real router and passed to the model (the router model itself is C19)'],
         trusted_base=['coroutines modelled by hand and tied by sysdiff'],
     ),
